@@ -493,9 +493,11 @@ def _same(e, a, b, path, bad):
             _same(e, x, y, '%s[%d]' % (path, k), bad)
         return
     if isinstance(a, dict) and isinstance(b, dict):
-        if list(a.keys()) != list(b.keys()):
-            bad.append('%s: keys %r written, %r read' % (path, list(a.keys()), list(b.keys()))); return
-        for k in a:
+        # a key holding None is written as a blank field and is absent after reading: the same content
+        ka, kb = [k for k in a if a[k] is not None], [k for k in b if b[k] is not None]
+        if set(ka) != set(kb):
+            bad.append('%s: keys %r written, %r read' % (path, ka, kb)); return
+        for k in ka:
             _same(e, a[k], b[k], '%s[%r]' % (path, k), bad)
         return
     if a is None or b is None or isinstance(a, (str, bool)) or isinstance(b, (str, bool)):
